@@ -343,6 +343,28 @@ def check_history(case):
                             bucket="stale verified bytes")
         if verdict(env) != verdict(copy.deepcopy(env)):
             raise Violation("an equal-valued deep copy gets a different verdict", bucket="identity dependence")
+    # the same across verifiers: an offer that verify_root examined and refused, edited in place, then given to verify_signable
+    from vlib import gen_metadata as GM, ref_openpgp
+    a, b = keys.POOL[(case["k"] + 1) % 8], keys.POOL[(case["k"] + 2) % 8]
+    T = GM.wrap(GM.signed_part("root", {"root": {"pubkeys": [keys.pub_hex(a)], "threshold": 1}, "key_mgr": {"pubkeys": [], "threshold": 1}}, version=1))
+    N = GM.wrap(GM.signed_part("root", {"root": {"pubkeys": [keys.pub_hex(b)], "threshold": 1}, "key_mgr": {"pubkeys": [], "threshold": 1}},
+                               version=2, extra={"payload": case["v"]}))
+    GM.sign_envelope(N, [a], True)          # meets the trusted rule, not its own: refused during the second signature check
+    try:
+        A.verify_root(T, N)
+        raise Violation("verify_root accepted an offer that does not meet its own root rule", bucket="verify_root accepts")
+    except C.SignatureError:
+        pass
+    N["signed"]["edited"] = ["after", "the", "refusal"]
+    for name, f_ in (("verify_signable", lambda: A.verify_signable(N, [keys.pub_hex(a)], 1, gpg=True)),
+                     ("verify_delegation", lambda: A.verify_delegation("root", N, T, gpg=True))):
+        try:
+            f_()
+            raise Violation("%s accepts an envelope whose signed part was edited in place after verify_root had examined it: the bytes "
+                            "that were verified are not those of the value presented" % name, bucket="stale verified bytes")
+        except C.SignatureError:
+            pass
+    steps += 1
     f = G.features(case["v"])
     return {"nontrivial": steps >= 2, "labels": ["steps=%d" % steps] + sorted(f)[:3]}
 
